@@ -132,3 +132,7 @@ impl EncoderValue for NewConnectionId<'_> {
         buffer.encode(&self.stateless_reset_token.as_ref());
     }
 }
+
+#[cfg(all(aws_s2n_quic_verif, test))]
+#[path = "/verif/harness/core/frame_new_connection_id.rs"]
+mod verif;
